@@ -18,6 +18,7 @@ structure Drv where
   kv : Kv.State := {}
   cache : Cache.State := Cache.mkState 1 0 (fun _ => 0)
   dur : Drv.ProtoDrv.St := {}
+  txn : Drv.ProtoDrv.TxnSt := {}
   conc : Drv.ConcDrv.St := {}
   pin : Conc.Pin.State := {}
   ifl : Conc.InFlight.Set := {}
@@ -37,6 +38,10 @@ def stepLine (d : Drv) (line : String) : IO (Drv × String) := do
   | "dur" :: rest =>
     match Drv.ProtoDrv.handleDur d.dur rest with
     | some (s, out) => pure ({ d with dur := s }, out)
+    | none => pure (d, "bad-op")
+  | "txn" :: rest =>
+    match Drv.ProtoDrv.handleTxn d.txn rest with
+    | some (s, out) => pure ({ d with txn := s }, out)
     | none => pure (d, "bad-op")
   | "conc" :: rest =>
     match Drv.ConcDrv.handle d.conc rest with
